@@ -157,7 +157,7 @@ def v2000_sessions(rng, tier, n):
     ss = []
     for i in range(n):
         big = i < (3 if tier == "quick" else 12)
-        M = textgen.abstract_molecule(rng, 12,  coords=["0.0000", "1.2500", "-2.5000", "10.0000", "", "0"], pool=["C", "H", "H", "O", "N", "Cl"] if big else None)
+        M = textgen.abstract_molecule(rng, 12, coords=(["0.0000"] if i % 4 == 1 else ["0.0000", "1.2500", "-2.5000", "10.0000", "", "0"]), pool=["C", "H", "H", "O", "N", "Cl"] if big else None)
         if big:
             # a chain of more than 99 atoms, so that bond lines with two three-digit atom numbers occur
             n_at = rng.randint(101, 108)
@@ -247,8 +247,9 @@ def c08(out, tier, rng):
 def nonidentity_variant(M, rng):
     """same atoms (element, mass, radical) and the same bonded pairs; everything else redrawn"""
     N = copy.deepcopy(M)
+    flat = rng.random() < 0.3          # a drawing without coordinates: every atom at the origin
     for a in N["atoms"]:
-        a["x"], a["y"], a["z"] = (rng.choice(textgen.COORDS) for _ in range(3))
+        a["x"], a["y"], a["z"] = ("0", "0", "0") if flat else (rng.choice(textgen.COORDS) for _ in range(3))
         a["chg"] = rng.choice([0, 0, 1, -1, 2])
     N["bonds"] = [(p, q, rng.choice([1, 2, 3, 4, 5, 8, 9, 10])) for p, q, t in N["bonds"]]
     return N
